@@ -39,6 +39,11 @@ pub struct Case {
 }
 
 pub fn gen_case(seed: u64, idx: usize, kinds: &[SectionKind], mode: usize) -> Case {
+    gen_case_named(seed, idx, kinds, mode, &[])
+}
+
+/// `names`: when not empty, the path of the i-th section (coverage floor over pairs of file-name classes).
+pub fn gen_case_named(seed: u64, idx: usize, kinds: &[SectionKind], mode: usize, names: &[&str]) -> Case {
     let mut rng = Rng::new(mix(seed, &[tag("C10"), tag("concat"), idx as u64]));
     let gp = GenParams { flavor: gen::Flavor::Git, sections: vec![], max_hunks: rng.range(1, 3), pivot: *rng.pick(&[1usize, 2, 3]), max_run: 6, with_commit_preamble: false, multibyte: rng.chance(1, 4), no_newline_marker: rng.chance(1, 2), similar_pairs: rng.chance(1, 2), no_index_lines: rng.chance(1, 4), no_prefix: rng.chance(1, 6) };
     let mut sections = Vec::new();
@@ -50,7 +55,8 @@ pub fn gen_case(seed: u64, idx: usize, kinds: &[SectionKind], mode: usize) -> Ca
     let log_stream = rng.chance(1, 5);
     let with_stat = log_stream && rng.chance(1, 3);
     for (i, k) in kinds.iter().enumerate() {
-        let s = if log_stream { gen::generate_commit_unit(&mut rng, &gp, *k, i, tok, shared.clone(), with_stat) } else { gen::generate_section_named(&mut rng, &gp, *k, i, tok, shared.clone()) };
+        let forced = if names.is_empty() { shared.clone() } else { Some(names[i % names.len()].to_string()) };
+        let s = if log_stream { gen::generate_commit_unit(&mut rng, &gp, *k, i, tok, forced, with_stat) } else { gen::generate_section_named(&mut rng, &gp, *k, i, tok, forced) };
         tok += s.iter().filter(|l| l.token.is_some()).count();
         sections.push(s);
     }
@@ -58,7 +64,7 @@ pub fn gen_case(seed: u64, idx: usize, kinds: &[SectionKind], mode: usize) -> Ca
     for a in MODES[mode % MODES.len()] {
         args.push((*a).into());
     }
-    if rng.chance(1, 2) {
+    if names.is_empty() && rng.chance(1, 2) {
         args.push("--syntax-theme".into());
         args.push("none".into());
     }
@@ -166,6 +172,17 @@ pub fn main_c10(tier: &str, seed: u64, replay: Option<&str>) -> i32 {
     }
     // every ordered pair of section kinds under every mode; triples: all (thorough) or sampled (quick)
     let mut specs: Vec<(Vec<SectionKind>, usize)> = Vec::new();
+    let mut name_cells: Vec<(Vec<SectionKind>, usize, Vec<&'static str>)> = Vec::new();
+    // coverage floor over file-name classes: every ordered pair of names whose language is chosen in
+    // different ways (whole name, extension, none), with highlighting on
+    const NAMES: &[&str] = &["CMakeLists.txt", "notes.txt", "requirements.txt", "Cargo.lock", "yarn.lock", "Makefile", "Dockerfile", "nginx.conf", "app.conf", "src/x.rs", "y.py", "my file.txt", "na\u{ef}ve/\u{444}\u{430}\u{439}\u{43b}.py", "README"];
+    for a in NAMES {
+        for b in NAMES {
+            for m in [0usize, 1] {
+                name_cells.push((vec![SectionKind::Modified, SectionKind::ModifiedEndsChanged], m, vec![*a, *b]));
+            }
+        }
+    }
     for a in ALL_SECTION_KINDS {
         for b in ALL_SECTION_KINDS {
             for m in 0..super::c10::MODES.len() {
@@ -194,8 +211,19 @@ pub fn main_c10(tier: &str, seed: u64, replay: Option<&str>) -> i32 {
             specs.push(((0..n).map(|_| *rng.pick(ALL_SECTION_KINDS)).collect(), rng.range(0, MODES.len() - 1)));
         }
     }
+    let n_plain = specs.len();
+    for (k, m, _) in &name_cells {
+        specs.push((k.clone(), *m));
+    }
+    let case_of = |i: usize| -> Case {
+        if i < n_plain {
+            gen_case(seed, i, &specs[i].0, specs[i].1)
+        } else {
+            gen_case_named(seed, i, &specs[i].0, specs[i].1, &name_cells[i - n_plain].2)
+        }
+    };
     let results = crate::par_map(specs.len(), &|i| {
-        let case = gen_case(seed, i, &specs[i].0, specs[i].1);
+        let case = case_of(i);
         let c2 = case.clone();
         // clause 1 under one hash seed ...
         let (v, runs, whole) = on_fresh_thread(mix(seed, &[tag("C10-hashA"), i as u64]), move || check_case_full(&case));
@@ -232,7 +260,7 @@ pub fn main_c10(tier: &str, seed: u64, replay: Option<&str>) -> i32 {
             }
             reported.insert(x.signature.clone());
             // minimise: drop sections, then lines inside sections, keeping the same signature
-            let mut case = gen_case(seed, i, &specs[i].0, specs[i].1);
+            let mut case = case_of(i);
             let sigx = x.signature.clone();
             let fails = |c: &Case| check_case(c).0.map(|y| y.oracle == "S-sections-independent").unwrap_or(false);
             let _ = sigx;
